@@ -16,7 +16,13 @@ def check_grid(ctx, X, cfg, fn, Zs, Ms, expect):
     ZZ = ZZ.ravel(); MM = MM.ravel()
     r0 = X.call(fn, ZZ, MM)
     r1 = X.call(fn, ZZ, MM, mode=xrl.M_NULL)
-    ctx.add(evaluations=2 * len(ZZ))
+    r2 = X.call(fn, ZZ, MM)                      # the whole grid again in the same processes: value AND error status of a cell must not depend on earlier calls
+    ctx.add(evaluations=3 * len(ZZ))
+    rep = np.nonzero((r2["v0"].view(np.uint64) != r0["v0"].view(np.uint64)) | ((r2["flags"] & F_ERR) != (r0["flags"] & F_ERR)) | (r2["code"] != r0["code"]))[0]
+    for j in rep[:20]:
+        ctx.violation("%s|%s|Z=%d|m=%d|repeat-differs" % (cfg, fn, int(ZZ[j]), int(MM[j])), "%s(%d,%d) [%s]: first call value=%r err=%s, a later identical call value=%r err=%s" % (
+            fn, int(ZZ[j]), int(MM[j]), cfg, float(r0["v0"][j]), bool(r0["flags"][j] & F_ERR), float(r2["v0"][j]), bool(r2["flags"][j] & F_ERR)),
+            dict(cfg=cfg, calls=[dict(fn=fn, args=[int(ZZ[j]), int(MM[j])]), dict(fn=fn, args=[int(ZZ[j]), int(MM[j])]), dict(fn=fn, args=[int(ZZ[j]), int(MM[j])])]))
     nt = 0
     for j in range(len(ZZ)):
         Z, m = int(ZZ[j]), int(MM[j])
@@ -158,7 +164,7 @@ def run(ctx, B):
         check_grid(ctx, X, cfg, "ElectronConfig_Biggs", Zs, Sh, biggs)
         X.close()
     ctx.cov["rule"] = ("complete Cartesian grid Z in [-3,125] x every macro value in [lo-3,hi+3] for 11 scalar accessors, both data "
-                       "configurations, each cell called with and without error slot; non-trivial = cell whose expected result is a positive "
+                       "configurations, each cell called with an error slot, without one, and with one again in the same process (repeat invariance); non-trivial = cell whose expected result is a positive "
                        "data-file record (counted once per configuration)")
     ctx.sample(dict(fn="EdgeEnergy", Z=26, shell=0, cfg="A", expected=refdata.p10(7112.0 / 1000)))
     ctx.sample(dict(fn="LineEnergy", Z=82, line=mac["L3M5_LINE"], cfg="K"))
